@@ -21,6 +21,9 @@ type vfNackScript struct {
 	Size  uint16 `json:"size"`
 	Skip  uint16 `json:"skip"`
 	Max   uint16 `json:"max"`
+	// Filt: GeneratorStreamsFilter option: "" (default filter), "all" (every stream is NACK enabled), "odd" (odd SSRCs
+	// only, whatever their feedback list says), "none"
+	Filt  string `json:"filt"`
 	Steps []struct {
 		A    string `json:"a"`
 		S    uint32 `json:"s"`
@@ -121,6 +124,14 @@ func vfRunIcpt(t *testing.T, sc *vfNackScript, out *vfWriter) {
 	if sc.Max > 0 {
 		opts = append(opts, GeneratorMaxNacksPerPacket(sc.Max))
 	}
+	switch sc.Filt {
+	case "all":
+		opts = append(opts, GeneratorStreamsFilter(func(*interceptor.StreamInfo) bool { return true }))
+	case "odd":
+		opts = append(opts, GeneratorStreamsFilter(func(i *interceptor.StreamInfo) bool { return i.SSRC%2 == 1 }))
+	case "none":
+		opts = append(opts, GeneratorStreamsFilter(func(*interceptor.StreamInfo) bool { return false }))
+	}
 	f, err := NewGeneratorInterceptor(opts...)
 	if err != nil {
 		t.Fatalf("VERIF-INFRA factory: %v", err)
@@ -186,6 +197,14 @@ func vfRunIcpt(t *testing.T, sc *vfNackScript, out *vfWriter) {
 				st.Nack = false
 			case "other":
 				b.info.RTCPFeedback = []interceptor.RTCPFeedback{{Type: "transport-cc"}}
+				st.Nack = false
+			}
+			switch sc.Filt { // with a configured filter the filter alone decides which streams are NACK enabled
+			case "all":
+				st.Nack = true
+			case "odd":
+				st.Nack = st.S%2 == 1
+			case "none":
 				st.Nack = false
 			}
 			b.reader = ic.BindRemoteStream(b.info, interceptor.RTPReaderFunc(
